@@ -34,29 +34,36 @@ import (
 
 type fakeRepo struct{}
 
-func (fakeRepo) GetIdentifier() string                                { return "simrepo" }
-func (fakeRepo) GetCloneDir() string                                  { return "/nonexistent/simrepo" }
-func (fakeRepo) ResolveTaskClassIdentifier(s string) string           { return "simrepo/tasks/" + s + "@rev" }
-func (fakeRepo) ResolveSubworkflowTemplateIdentifier(s string) string { return "simrepo/workflows/" + s }
-func (fakeRepo) GetProtocol() string                                  { return "local" }
-func (fakeRepo) GetHash() string                                      { return "rev" }
-func (fakeRepo) GetRevisions() []string                               { return []string{"rev"} }
-func (fakeRepo) GetDefaultRevision() string                           { return "rev" }
-func (fakeRepo) IsDefault() bool                                      { return true }
-func (fakeRepo) GetTaskTemplatePath(s string) string                  { return s }
-func (fakeRepo) GetDplCommand(string) (string, error)                 { return "", errors.New("no dpl") }
+func (fakeRepo) GetIdentifier() string                      { return "simrepo" }
+func (fakeRepo) GetCloneDir() string                        { return "/nonexistent/simrepo" }
+func (fakeRepo) ResolveTaskClassIdentifier(s string) string { return "simrepo/tasks/" + s + "@rev" }
+func (fakeRepo) ResolveSubworkflowTemplateIdentifier(s string) string {
+	return "simrepo/workflows/" + s
+}
+func (fakeRepo) GetProtocol() string                  { return "local" }
+func (fakeRepo) GetHash() string                      { return "rev" }
+func (fakeRepo) GetRevisions() []string               { return []string{"rev"} }
+func (fakeRepo) GetDefaultRevision() string           { return "rev" }
+func (fakeRepo) IsDefault() bool                      { return true }
+func (fakeRepo) GetTaskTemplatePath(s string) string  { return s }
+func (fakeRepo) GetDplCommand(string) (string, error) { return "", errors.New("no dpl") }
 
 var _ repos.IRepo = fakeRepo{}
 
 type node struct {
-	Kind    string  `json:"kind"` // agg, task, call
-	Name    string  `json:"name"`
-	Enabled string  `json:"enabled,omitempty"` // "", "false", "flag:<f>", "it:<var>" (false for element x1)
-	List    string  `json:"for_list,omitempty"` // iterated over this list variable
-	Var     string  `json:"for_var,omitempty"`
-	HasVar  bool    `json:"has_var,omitempty"` // defines a var referring to the root default `base`
-	Broken  bool    `json:"broken,omitempty"`
-	Kids    []*node `json:"kids,omitempty"`
+	Kind    string `json:"kind"` // agg, task, call
+	Name    string `json:"name"`
+	Enabled string `json:"enabled,omitempty"`  // "", "false", "flag:<f>", "it:<var>" (false for element x1)
+	List    string `json:"for_list,omitempty"` // iterated over this list variable
+	Var     string `json:"for_var,omitempty"`
+	HasVar  bool   `json:"has_var,omitempty"` // defines a var referring to the root default `base`
+	Broken  bool   `json:"broken,omitempty"`
+	// BrokenRef: the error is a reference to a variable that is not visible to this role, written
+	// with the very text another role (DefinesLv) uses validly
+	BrokenRef bool    `json:"broken_undefined_reference,omitempty"`
+	DefinesLv bool    `json:"defines_lv,omitempty"`
+	UsesLv    bool    `json:"uses_lv,omitempty"` // valid use: an ancestor defines it
+	Kids      []*node `json:"kids,omitempty"`
 }
 
 type scenario struct {
@@ -70,10 +77,11 @@ type scenario struct {
 }
 
 type gen struct {
-	c        *hk.Ctx
-	n        int
-	sc       *scenario
-	canBreak bool
+	c         *hk.Ctx
+	n         int
+	sc        *scenario
+	canBreak  bool
+	brokenRef bool
 }
 
 func (g *gen) mk(depth int, iterVars []string) *node {
@@ -107,6 +115,8 @@ func (g *gen) mk(depth int, iterVars []string) *node {
 	nd.HasVar = kind != "call" && c.W(3, "vars") == 2
 	if kind != "call" && g.canBreak && c.F(20, "break-here") == 19 {
 		nd.Broken, g.canBreak = true, false
+		nd.BrokenRef = c.F(2, "broken-how") == 1
+		g.brokenRef = g.brokenRef || nd.BrokenRef
 	}
 	if kind == "agg" {
 		k := 1 + c.W(3, "fanout")
@@ -138,12 +148,20 @@ func yamlNode(b *strings.Builder, nd *node, ind string) {
 		v := strings.TrimPrefix(nd.Enabled, "it2:")
 		fmt.Fprintf(b, "%senabled: \"{{ %s != 'x1' && %s != 'x2' }}\"\n", in, v, v)
 	}
-	if nd.HasVar || nd.Broken {
+	if nd.HasVar || nd.Broken || nd.DefinesLv || nd.UsesLv {
 		fmt.Fprintf(b, "%svars:\n", in)
 		if nd.HasVar {
 			fmt.Fprintf(b, "%s  v_%s: \"p-{{ base }}\"\n", in, nd.Name)
 		}
-		if nd.Broken {
+		if nd.DefinesLv {
+			fmt.Fprintf(b, "%s  lv: \"a\"\n", in)
+		}
+		if nd.UsesLv {
+			fmt.Fprintf(b, "%s  u: \"q-{{ lv }}\"\n", in)
+		}
+		if nd.Broken && nd.BrokenRef {
+			fmt.Fprintf(b, "%s  u: \"q-{{ lv }}\"\n", in) // lv is not defined for this role
+		} else if nd.Broken {
 			fmt.Fprintf(b, "%s  broken: \"{{ 1 + }}\"\n", in)
 		}
 	}
@@ -162,7 +180,7 @@ func yamlNode(b *strings.Builder, nd *node, ind string) {
 
 // reference expansion, written from the property statement
 type refResult struct {
-	paths     []string // DFS order
+	paths      []string // DFS order
 	errReached bool
 }
 
@@ -321,6 +339,10 @@ func body(c *hk.Ctx) {
 	nTop := 1 + c.W(3, "top")
 	for i := 0; i < nTop; i++ {
 		sc.Tree = append(sc.Tree, g.mk(1, nil))
+	}
+	if g.brokenRef {
+		// the role that uses the same expression text validly comes first
+		sc.Tree = append([]*node{{Kind: "agg", Name: "r0def", DefinesLv: true, Kids: []*node{{Kind: "task", Name: "r0use", UsesLv: true}}}}, sc.Tree...)
 	}
 	jsonList := func(l []string) string {
 		if len(l) == 0 {
